@@ -112,6 +112,51 @@ theorem pages_concat (db : DB) (p : Params) (all : List Row) (total : Nat)
   apply pages_flatMap L hL n all
   rw [← find_total db p all total h]; exact hn
 
+/-- Facet soundness (targets / tasks / algorithms / state vectors): a successful facet request lists,
+    in strictly ascending order and without repeats, exactly the names found in the requested
+    column of the prime keys that satisfy the other constraints. -/
+theorem facet_sound (db : DB) (hnn : db.NonNeg) (p : Params) (names : List String)
+    (h : facet db p = .ok names) :
+    ∃ col cat, facetColumn db p = some (col, cat) ∧ Asc strLt names ∧
+      ∀ n, n ∈ names ↔ ∃ k, k ∈ db.prime ∧ Sat db p k ∧ cat.index[(col k).toNat]? = some n := by
+  unfold facet at h
+  cases hf : facetField p with
+  | error e => rw [hf] at h; cases h
+  | ok f =>
+    rw [hf] at h
+    simp only at h
+    have finish : ∀ (g : Key5 → Int) (gk : Key → Int) (c : Cat),
+        (∀ k, g k.collapse = gk k) → (∀ k, k ∈ db.prime → 0 ≤ gk k) →
+        (facetNames db (scrubParams p) f =
+          match mapOpt (fun pk => pyIndex c.index (g pk)) (matching db p) with
+          | none => .error .indexError
+          | some names => .ok (sortDedup strLt names)) →
+        Asc strLt names ∧
+          ∀ n, n ∈ names ↔ ∃ k, k ∈ db.prime ∧ Sat db p k ∧ c.index[(gk k).toNat]? = some n := by
+      intro g gk c hg hpos heq
+      rw [heq] at h
+      cases hm : mapOpt (fun pk => pyIndex c.index (g pk)) (matching db p) with
+      | none => rw [hm] at h; cases h
+      | some names0 =>
+        rw [hm] at h
+        simp only [Except.ok.injEq] at h
+        subst h
+        exact facet_core db hnn p g gk hg hpos c names0 hm
+    rcases facetField_cases p f hf with ⟨rfl, h1⟩ | ⟨rfl, h1, h2⟩ | ⟨rfl, h1, h2, h3⟩ |
+      ⟨rfl, h1, h2, h3, h4⟩
+    · refine ⟨Key.tgt, db.target, by simp [facetColumn, h1], ?_⟩
+      exact finish Key5.tgt Key.tgt db.target (fun _ => rfl) (fun k hk => (hnn k hk).2.1)
+        (facetNames_eq db p _ "target" db.target Key5.tgt rfl rfl (fun _ => rfl))
+    · refine ⟨Key.task, db.task, by simp [facetColumn, h1, h2], ?_⟩
+      exact finish Key5.task Key.task db.task (fun _ => rfl) (fun k hk => (hnn k hk).2.2.1)
+        (facetNames_eq db p _ "task" db.task Key5.task rfl rfl (fun _ => rfl))
+    · refine ⟨Key.alg, db.alg, by simp [facetColumn, h1, h2, h3], ?_⟩
+      exact finish Key5.alg Key.alg db.alg (fun _ => rfl) (fun k hk => (hnn k hk).2.2.2.1)
+        (facetNames_eq db p _ "alg" db.alg Key5.alg rfl rfl (fun _ => rfl))
+    · refine ⟨Key.sv, db.state, by simp [facetColumn, h1, h2, h3, h4], ?_⟩
+      exact finish Key5.sv Key.sv db.state (fun _ => rfl) (fun k hk => (hnn k hk).2.2.2.2.1)
+        (facetNames_eq db p _ "state" db.state Key5.sv rfl rfl (fun _ => rfl))
+
 /-! ### non-vacuity: one concrete database, constraints of every kind, a middle page -/
 
 section examples
@@ -160,6 +205,9 @@ example : find exDB exParams 1 (some 2) =
 example : find exDB exParams 0 none =
     some ([⟨1, "T", "tk", "A", "S"⟩, ⟨2, "T", "tk", "A", "S"⟩, ⟨3, "T", "tk", "A", "S"⟩,
            ⟨5, "T", "tk", "A", "S"⟩], 4) := by decide +kernel
+
+/-- facet over the algorithm column of `exParams` (its `algs` member is `[]`) -/
+example : facet exDB exParams = .ok ["A"] := by rfl
 
 /-- a malformed piece makes the whole text fail -/
 example : parse [Tok.int 6, Tok.empty, Tok.rng (some 13) none, Tok.bad] = none := by decide
